@@ -132,7 +132,7 @@ def gate_key(gate):
 # shared qudits, which is where the dependency logic of the partitioners
 # decides.  These families do: every gate after the first layer joins two
 # blocks that are still open.
-FAMILIES = ('layered', 'ring', 'triples', 'cross')
+FAMILIES = ('layered', 'ring', 'triples', 'cross', 'runs')
 _ONE = {2: ['h', 'x', 'rz', 'u3'], 3: ['sh3']}
 
 
@@ -215,6 +215,17 @@ def family_locations(rng, fam, n, k, nlayers, p3):
                         out.append(tuple(rng.sample(tri, min(2, len(tri)))))
                     else:
                         out.append((rng.choice(tri),))
+    elif fam == 'runs':
+        # runs of single-qudit gates between entangling gates on a few of the
+        # qudits: long sparse circuits, many cycles hold one operation only
+        act = rng.sample(range(n), min(n, rng.choice([2, 2, 3, 4])))
+        for _ in range(nlayers * 3):
+            q = rng.choice(act)
+            for _ in range(rng.choice([1, 2, 2, 3, 4])):
+                out.append((q,))
+            if rng.random() < 0.8:
+                w = 3 if len(act) >= 3 and rng.random() < p3 else 2
+                out.append(tuple(rng.sample(act, w)))
     else:
         # 'cross': disjoint seed groups, then long-range gates between two (or
         # three) different groups, a few gates inside a group in between
@@ -1116,6 +1127,7 @@ def run(ck: Check):
                       names, 'qdense') for s in range(0, nq, 80)]
             if thorough:
                 tot = sum(1 for _ in all_canonical_pairs(SMALL_NQ, SMALL_M))
+                tot = min(tot, int(os.environ.get('C08_NSMALL', tot)))
                 jobs += [(ck.seed, list(range(s, min(tot, s + 800))),
                           thorough, names, 'small-all')
                          for s in range(0, tot, 800)]
